@@ -174,6 +174,9 @@ func (m *Cert) checkBlock(c *vnet.Cluster, n *vnet.Node, e *vnet.Event) {
 	}
 	switch {
 	case info.Valid >= M:
+	case info.InvalidLate == 0 && info.Valid+info.InvalidEarly >= M && isAMEV(c, b.Idx):
+		// under anti-MEV every commit that arrived before the pre-block was processed is verified when it is processed
+		m.fail(c, "amev-early-unverified-commit", "n%d accepted block %s at (%d,%d) with only %d/%d verifying current-view commits; %d commit(s) stored before the pre-block was processed never verified", n.ID, b.Hash(), d.BlockIndex, d.ViewNumber, info.Valid, M, info.InvalidEarly)
 	case info.InvalidLate == 0 && info.Valid+info.InvalidEarly >= M && d.IsPrimary() && !d.Context.WatchOnly():
 		// the recorded finding concerns nodes that *receive* the proposal; a primary validates early payloads when it proposes
 		m.fail(c, "early-unverified-commit-at-primary", "primary n%d accepted block %s at (%d,%d) with only %d/%d verifying current-view commits; %d commit(s) stored before its own proposal never verified", n.ID, b.Hash(), d.BlockIndex, d.ViewNumber, info.Valid, M, info.InvalidEarly)
